@@ -5,6 +5,7 @@ use crate::engine::{CheckResult, Ctx, Tier};
 
 pub mod c01;
 pub mod c02;
+pub mod c03;
 pub mod c05;
 pub mod c11;
 pub mod c13;
@@ -29,9 +30,54 @@ pub struct PropDef {
 }
 
 pub fn all() -> Vec<PropDef> {
-    vec![c01::def(), c02::def(), c05::def(), c11::def(), c13::def(), c14::def(), c15::def(), c16::def()]
+    vec![c01::def(), c02::def(), c03::def(), c05::def(), c11::def(), c13::def(), c14::def(), c15::def(), c16::def()]
 }
 
 pub fn find(id: &str) -> Option<PropDef> {
     all().into_iter().find(|p| p.id == id)
+}
+
+/// Generator classes that must occur in every run of a property; a class with zero hits is a
+/// generator defect (exit 2), not a violation.
+pub fn required_classes(id: &str) -> Vec<String> {
+    let mut v: Vec<String> = vec![];
+    if id == "C03" {
+        for f in [
+            "dimacs-literal-max",
+            "dimacs-literal-min",
+            "dimacs-empty-clause",
+            "dimacs-zero-header-field",
+            "dimacs-weight-max",
+            "aiger-trailing-zero-header-fields-dropped",
+            "aiger-latch-reset-1",
+            "aiger-latch-reset-0",
+            "aiger-latch-uninitialised",
+            "aiger-symbol-i",
+            "aiger-symbol-o",
+            "aiger-symbol-l",
+            "aiger-symbol-b",
+            "aiger-symbol-c",
+            "aiger-symbol-j",
+            "aiger-symbol-f",
+            "aiger-multi-line-comment",
+            "aiger-justice-section",
+            "aiger-fairness-section",
+            "btor2-const-b",
+            "btor2-const-d",
+            "btor2-const-h",
+            "btor2-justice",
+            "btor2-slice",
+            "btor2-sort-array",
+        ] {
+            v.push(format!("forward/feature/{f}"));
+        }
+        for n in crate::btor::BINARY_NAMES {
+            v.push(format!("forward/feature/btor2-{n}"));
+        }
+        for n in crate::btor::UNARY_PLAIN_NAMES {
+            v.push(format!("forward/feature/btor2-{n}"));
+        }
+        v.push("forward-huge-binary/feature/aiger-delta-9+-bytes".into());
+    }
+    v
 }
